@@ -133,6 +133,16 @@ class UserAddNode(ActionGroup):
             pos_keys = pos_key if isinstance(pos_key, list) else [pos_key]
             if not all(key in attributes for key in pos_keys):
                 raise ValueError(f"Must provide position or segmentation for node {node}")
+        elif tracks.segmentation is not None and np.issubdtype(
+            tracks.segmentation.dtype, np.integer
+        ):
+            # the node id becomes the label: it has to fit the segmentation's dtype
+            dtype_info = np.iinfo(tracks.segmentation.dtype)
+            if not dtype_info.min <= node <= dtype_info.max:
+                raise OverflowError(
+                    f"Node id {node} out of bounds for segmentation dtype "
+                    f"{tracks.segmentation.dtype}"
+                )
         for conflicting_edge in conflicting_edges:
             self.actions.append(
                 UserDeleteEdge(tracks, conflicting_edge, _top_level=False)
